@@ -551,4 +551,120 @@ theorem closure_covers (prog : List Step) (hdbu : dbu prog = true) (w v : Nat)
     w ∈ aliasClosure (aliasesOf prog) prog.length v :=
   closure_of_chain prog prog (fun _ h => h) hdbu v w (chain_of_pointsInto prog w v h hne)
 
+/-! ## The allocator's hash-bucket chains -/
+
+/-- Distinct keys in a chain (a header is inserted only after a failed
+lookup). -/
+def KeysNodup (c : List Entry) : Prop := (c.map (·.key)).Nodup
+
+theorem find_eraseP_ne (c : List Entry) (k k' : Nat) (h : k' ≠ k) :
+    (c.eraseP (·.key == k)).find? (·.key == k') = c.find? (·.key == k') := by
+  induction c with
+  | nil => rfl
+  | cons e es ih =>
+    by_cases hk : e.key = k
+    · have : (e.key == k) = true := by simp [hk]
+      simp only [List.eraseP_cons, this, cond_true]
+      have hne : (e.key == k') = false := by
+        simp only [beq_eq_false_iff_ne, ne_eq]; rw [hk]; exact fun h' => h h'.symm
+      simp [hne]
+    · have : (e.key == k) = false := by simpa using hk
+      simp only [List.eraseP_cons, this, cond_false]
+      simp only [List.find?_cons]
+      split
+      · rfl
+      · exact ih
+
+theorem find_eraseP_self (c : List Entry) (k : Nat) (hn : KeysNodup c) :
+    (c.eraseP (·.key == k)).find? (·.key == k) = none := by
+  induction c with
+  | nil => rfl
+  | cons e es ih =>
+    simp only [KeysNodup, List.map_cons, List.nodup_cons] at hn
+    by_cases hk : e.key = k
+    · have : (e.key == k) = true := by simp [hk]
+      simp only [List.eraseP_cons, this, cond_true]
+      rw [List.find?_eq_none]
+      intro x hx
+      have : x.key ∈ es.map (·.key) := List.mem_map.mpr ⟨x, hx, rfl⟩
+      simp only [beq_iff_eq]
+      intro hxk
+      exact hn.1 (by rw [hk, ← hxk]; exact this)
+    · have : (e.key == k) = false := by simpa using hk
+      simp only [List.eraseP_cons, this, cond_false]
+      simp only [List.find?_cons, this]
+      exact ih hn.2
+
+theorem keysNodup_eraseP (c : List Entry) (k : Nat) (hn : KeysNodup c) :
+    KeysNodup (c.eraseP (·.key == k)) := by
+  unfold KeysNodup at *
+  exact List.Nodup.sublist (List.Sublist.map _ (List.eraseP_sublist)) hn
+
+/-- `remove v` returns `v`'s header (if present), deletes exactly that header
+and leaves every other value's header findable, unchanged. -/
+theorem chainRemove_spec (c : List Entry) (k : Nat) (hn : KeysNodup c) :
+    (chainRemove c k).1 = c.find? (·.key == k) ∧
+    (chainRemove c k).2.find? (·.key == k) = none ∧
+    (∀ k', k' ≠ k → (chainRemove c k).2.find? (·.key == k') = c.find? (·.key == k')) ∧
+    KeysNodup (chainRemove c k).2 :=
+  ⟨rfl, find_eraseP_self c k hn, fun k' h => find_eraseP_ne c k k' h, keysNodup_eraseP c k hn⟩
+
+/-- `lookup v` finds `v`'s header iff there is one, and its move-to-front
+changes no lookup result (of any value). -/
+theorem chainLookup_spec (c : List Entry) (k : Nat) (hn : KeysNodup c) :
+    (chainLookup c k).1 = c.find? (·.key == k) ∧
+    (∀ k', (chainLookup c k).2.find? (·.key == k') = c.find? (·.key == k')) ∧
+    KeysNodup (chainLookup c k).2 := by
+  unfold chainLookup
+  cases hf : c.find? (·.key == k) with
+  | none =>
+    cases hi : c.findIdx? (·.key == k) <;> exact ⟨rfl, fun _ => rfl, hn⟩
+  | some e =>
+    have hek : e.key = k := by
+      have := List.find?_some hf
+      simpa using this
+    have hmem : e ∈ c := List.mem_of_find?_eq_some hf
+    cases hi : c.findIdx? (·.key == k) with
+    | none =>
+      exfalso
+      have := (List.findIdx?_eq_none_iff.mp hi) e hmem
+      simp [hek] at this
+    | some i =>
+      simp only
+      split
+      · refine ⟨rfl, ?_, ?_⟩
+        · intro k'
+          by_cases hk' : k' = k
+          · subst hk'
+            simp [hek, hf]
+          · have hne : (e.key == k') = false := by
+              simp only [beq_eq_false_iff_ne, ne_eq]; rw [hek]; exact fun h' => hk' h'.symm
+            simp only [List.find?_cons, hne]
+            exact find_eraseP_ne c k k' hk'
+        · have hn' := keysNodup_eraseP c k hn
+          unfold KeysNodup at *
+          simp only [List.map_cons, List.nodup_cons]
+          refine ⟨?_, hn'⟩
+          intro hin
+          obtain ⟨x, hx, hxk⟩ := List.mem_map.mp hin
+          have hnone := find_eraseP_self c k hn
+          rw [List.find?_eq_none] at hnone
+          have := hnone x hx
+          simp only [beq_iff_eq] at this
+          exact this (by rw [hxk, hek])
+      · exact ⟨rfl, fun _ => rfl, hn⟩
+
+/-- Inserting a header for a key that was not found keeps keys distinct. -/
+theorem keysNodup_insert (c : List Entry) (e : Entry) (hn : KeysNodup c)
+    (hnew : c.find? (·.key == e.key) = none) : KeysNodup (e :: c) := by
+  unfold KeysNodup at *
+  simp only [List.map_cons, List.nodup_cons]
+  refine ⟨?_, hn⟩
+  intro hin
+  obtain ⟨x, hx, hxk⟩ := List.mem_map.mp hin
+  rw [List.find?_eq_none] at hnew
+  have := hnew x hx
+  simp only [beq_iff_eq] at this
+  exact this hxk
+
 end Mpc.Gc
